@@ -423,6 +423,26 @@ fn selfcheck_oracle() -> i32 {
             }
         }
     }
+    for (fen, line) in corpus::SPECIAL_LINES {
+        match refchess::Pos::from_fen(fen).filter(|p| p.is_sane() && p.fen() == *fen) {
+            Some(mut p) => {
+                for t in line.split_ascii_whitespace() {
+                    match refchess::Mv::parse(t) {
+                        Some(m) if p.is_legal(m) => p = p.make(m),
+                        _ => {
+                            println!("[selfcheck] special line '{}' from '{}' has an illegal move at '{}'", line, fen, t);
+                            bad += 1;
+                            break;
+                        }
+                    }
+                }
+            }
+            None => {
+                println!("[selfcheck] special line start '{}' invalid", fen);
+                bad += 1;
+            }
+        }
+    }
     println!("[selfcheck] corpus: {} positions checked; enumerated malformed lines: {}", corpus::all_corpus().len(), malformed::enumerated_cached().len());
     if bad == 0 {
         0
